@@ -170,6 +170,62 @@ func genC10(g *gen) {
 			g.check(strings.HasPrefix(out, "refuse:"), "strict:"+name, fmt.Sprintf("malformed phrase (%s) was not refused by %s: %s", name, dec, trunc(out, 80)), dec+" "+hx([]byte(p)))
 		}
 	}
+	// near-miss tokens (implementation only): a list word with any one byte put in front of it or behind it, with one
+	// letter changed, doubled, or with its case changed — at a random place of an otherwise valid phrase. None of them is a
+	// list word, so every such phrase must be refused by all three decoders
+	{
+		inList := map[string]bool{}
+		for _, w := range qrl.WordList {
+			inList[w] = true
+		}
+		var picks []string
+		for _, w := range qrl.WordList { // the first word of each length, then random ones (six-letter words are the longest)
+			if len(picks) < 8 && (len(picks) == 0 || len(w) != len(picks[len(picks)-1])) {
+				picks = append(picks, w)
+			}
+		}
+		for len(picks) < 20 {
+			picks = append(picks, qrl.WordList[g.rng.Intn(4096)])
+		}
+		picks = append(picks, qrl.WordList[0], qrl.WordList[4095])
+		tried := 0
+		for _, w := range picks {
+			var toks []string
+			for c := 0; c < 256; c++ {
+				if c == ' ' {
+					continue
+				}
+				toks = append(toks, string([]byte{byte(c)})+w, w+string([]byte{byte(c)}))
+			}
+			for i := 0; i < len(w); i++ {
+				for _, d := range []int{-1, 1, -32, 32, 128} {
+					b := []byte(w)
+					b[i] = byte(int(b[i]) + d)
+					toks = append(toks, string(b))
+				}
+			}
+			toks = append(toks, w+w, w+"-"+w, strings.ToUpper(w), strings.Title(w), w+"xxxxxxxxxx", "xxxxxxxxxx"+w)
+			for _, t := range toks {
+				if inList[t] || strings.ContainsRune(t, ' ') {
+					continue
+				}
+				ws := append([]string{}, words...)
+				ws[g.rng.Intn(len(ws))] = t
+				ph := strings.Join(ws, " ")
+				dec := []string{"m.dec48", "m.dec", "m.dec51"}[tried%3]
+				if dec == "m.dec51" {
+					ws2 := strings.Split(good51, " ")
+					ws2[g.rng.Intn(len(ws2))] = t
+					ph = strings.Join(ws2, " ")
+				}
+				line := dec + " " + hx([]byte(ph))
+				out := execOp(g.st, line)
+				g.check(strings.HasPrefix(out, "refuse:"), "strict:near-miss-word", fmt.Sprintf("a phrase containing the unknown word %q was not refused by %s: %s", t, dec, trunc(out, 60)), line)
+				tried++
+			}
+		}
+		g.counts["near-miss-tokens"] = tried
+	}
 	// wrong size for the sized entry points
 	g.check(strings.HasPrefix(g.op("m.dec48 %s", hx([]byte(good51))), "refuse:"), "strict:size", "34-word phrase accepted as a 48-byte seed")
 	g.check(strings.HasPrefix(g.op("m.dec51 %s", hx([]byte(good48))), "refuse:"), "strict:size", "32-word phrase accepted as a 51-byte extended seed")
@@ -380,6 +436,40 @@ func genC16(g *gen) {
 		coreBad := xmss.Verify(msg, bad, xpk)
 		out := g.op("js.xverify %s %s %s", hx(msg), hx([]byte(hex.EncodeToString(bad))), hx([]byte("0x"+hex.EncodeToString(xpk[:]))))
 		g.check(out == "ok "+bstr(coreBad), "xmss-verify-wrapper", "XMSSVerify on a corrupted signature differs from core", g.ops[len(g.ops)-1])
+	}
+	// messages that look like an encoding of something else: the wrapper takes the message as it is (its bytes), whatever
+	// it looks like — "0x…" text, hex text, upper case, the empty string; every signed × queried pair must agree with core
+	{
+		msgs := []string{"0xdeadbeef", "\xde\xad\xbe\xef", "0x", "", "deadbeef", "0XDEADBEEF", "0xdeadbee", "00", "\x00", "0x00", "Q0105", " 0xab", "0xab "}
+		x2 := xmss.NewXMSSFromSeed(seed, 4, xmss.HashFunction(g.rng.Intn(3)), common.SHA256_2X)
+		x2pk := x2.GetPK()
+		var sigs [][]byte
+		for _, m := range msgs {
+			sg, _ := x2.Sign([]byte(m))
+			sigs = append(sigs, sg)
+		}
+		for i, sg := range sigs {
+			for j, q := range msgs {
+				core := xmss.Verify([]byte(q), sg, x2pk)
+				line := fmt.Sprintf("js.xverify %s %s %s", hx([]byte(q)), hx([]byte(g.hexVariants(sg)[(i+j)%4])), hx([]byte(g.hexVariants(x2pk[:])[(i*3+j)%4])))
+				out := execOp(g.st, line)
+				g.check(out == "ok "+bstr(core), "xmss-verify-wrapper", fmt.Sprintf("XMSSVerify(message %q, signature made for %q) = %s but core Verify on the message bytes = %v", q, msgs[i], out, core), line)
+			}
+		}
+		// the same for the Dilithium wrapper (it takes the message as bytes)
+		var dsigs [][4595]byte
+		for _, m := range msgs {
+			sg, _ := d.Sign([]byte(m))
+			dsigs = append(dsigs, sg)
+		}
+		for i, sg := range dsigs {
+			for j, q := range msgs {
+				core := dilithium.Verify([]byte(q), sg, &dpk)
+				line := fmt.Sprintf("js.dverify %s %s %s", hx([]byte(q)), hx([]byte(g.hexVariants(sg[:])[(i+j)%4])), hx([]byte(g.hexVariants(dpk[:])[(i*3+j)%4])))
+				out := execOp(g.st, line)
+				g.check(out == "ok "+bstr(core), "dil-verify-wrapper", fmt.Sprintf("DilithiumVerify(message %q, signature made for %q) = %s but core Verify = %v", q, msgs[i], out, core), line)
+			}
+		}
 	}
 	// valid signatures at heights up to 30 (crafted through the model): wrapper and core must agree there too
 	g.note("XMSSVerify on valid signatures of tall trees")
